@@ -20,7 +20,8 @@ CHECKS = {
               "implementation at every rounding breakpoint +-1ulp, edges, zeros/denormals and random tensors."
               " The float32 bridge is proved (Quant/FLExact.v): the rounding function fl of the float model is the identity on every k*2^e with |k| < 2^24 in the normal range, hence every representable code times its step IS a float32 value (C01_code_times_step_is_a_float32_value, C01_qbits_output_is_a_float32_value)."
               " Translator lingen.py -> coq/gen/LinGen.v + Link/LinLink.v: get_clip_bounds of quantized_linear IS (smallest code, largest code) and max()/min() are those codes times the quantization scale the codes are multiplied by, for every multi-bit configuration (regenerated every run). Quantizers are also built by assigning the modifiable attribute symmetric after construction."
-              " Translator qbitsgen.py -> coq/gen/QBitsGen.v + Link/QBitsLink.v: the value the legacy quantized_bits.__call__ computes on its data-independent path is scale * code * 2^step for a code inside [lo, hi] of the declared format, for every configuration (multi-bit and sign form), scale and rational input."),
+              " Translator qbitsgen.py -> coq/gen/QBitsGen.v + Link/QBitsLink.v: the value the legacy quantized_bits.__call__ computes on its data-independent path is scale * code * 2^step for a code inside [lo, hi] of the declared format, for every configuration (multi-bit and sign form), scale and rational input."
+              " Translator relucallgen.py -> coq/gen/ReluCallGen.v + Link/ReluCallLink.v: for the plain ReLU the quantized value of quantized_relu.__call__ is qr_val of the model for every configuration (is_quantized_clip, relu_upper_bound given or not) and rational input."),
         design_ref="DESIGN.md section 5 C01, section 10, section 10.10",
         note=(TB_COMMON + "TensorFlow float32 kernels are modelled as exact rational arithmetic inside the hypothesis |x| < 2^24 output-grid "
               "steps (exactness argument in DESIGN.md 2.2); hard/smooth sigmoid use the explicit 24-bit rounding function fl of Base/FL.v; "
@@ -117,7 +118,8 @@ CHECKS = {
               "constant-scale binary/ternary), (leaky, bounded) ReLU, quantized_linear (1 inside the clip range, 0 outside), tanh' for unscaled "
               "binary/ternary (oracle). tf.GradientTape gradients of the implementation are compared with the dual-number evaluation of the "
               "hand-written return expression at random points and at every kink +-1ulp."
-              " The straight-through return expressions of every quantizer class are REGENERATED on every run (tools/translate/retgen.py -> coq/gen/RetGen.v) and Link/RetLink.v proves for each, for every surrogate / quantized value / noise factor, that its gradient is the surrogate's (STE, plain) resp. (1-f) times it (use_ste=False); quantized_linear with automatic scales is generated."),
+              " The straight-through return expressions of every quantizer class are REGENERATED on every run (tools/translate/retgen.py -> coq/gen/RetGen.v) and Link/RetLink.v proves for each, for every surrogate / quantized value / noise factor, that its gradient is the surrogate's (STE, plain) resp. (1-f) times it (use_ste=False); quantized_linear with automatic scales is generated."
+              " Translator relucallgen.py -> coq/gen/ReluCallGen.v + Link/ReluCallLink.v: the unquantized surrogate x_u of quantized_relu is the (leaky) ReLU bounded by 2^integer - 2^(integer - non-sign bits), the largest code, regenerated from the source every run."),
         design_ref="DESIGN.md section 5 C06, section 10, section 10.10",
         note=(TB_COMMON + "TensorFlow's differentiation conventions are encoded in Base/Texp.v (clip closed interval, relu'(0)=alpha, "
               "stop_gradient, where by forward value) and re-validated on every run. The texp per quantizer is a hand transcription of the "
